@@ -55,6 +55,9 @@ def scenario(name: str, umsize: int, alloc: List[int], reqs: List[Dict[str, Any]
             prog = []
         elif b[0] == "nop":
             prog.append(I("set", Cb(15), 7))
+        elif b[0] == "array":              # the results array of request b[1] is declared again (as a subroutine run again does)
+            i = b[1]
+            prog.append(I("array", creg(10 * (reqs[i]["n"] + reqs[i].get("room", 0))), 3 * i + 2))
         elif b[0] == "req":
             i = b[1]
             base = 5 * i
@@ -124,6 +127,21 @@ def scenarios(tier: str, fix: str = "") -> List[Dict[str, Any]]:
     S.append(scenario("roomy-buffer-then-create-same-key", 3, [], [K("create", 1, 0, 1, [0], room=1), K("create", 1, 0, 1, [1])], [],
                       [("req", 0), ("req", 1), ("wait", 0), ("wait", 1)], fix))
     S.append(scenario("roomy-measure-buffer-then-create-same-key", 1, [], [M("create", 1, 0, 1, room=2), M("create", 1, 0, 2)], [],
+                      [("req", 0), ("wait", 0), ("req", 1), ("wait", 1)], fix))
+    # the same subroutine (declare the results array, request, wait) run twice by one application: the second wait may
+    # only resume on the second request's results
+    S.append(scenario("same-request-subroutine-twice", 1, [], [M("create", 1, 0, 1)], [],
+                      [("array", 0), ("req", 0), ("wait", 0), ("sub",), ("array", 0), ("req", 0), ("wait", 0)], fix))
+    # roles mixed on one key while a create response is deferred: the receive response behind it is for another role
+    S.append(scenario("deferred-create-then-recv-same-key", 2, [0], [K("create", 1, 0, 1, [0]), M("recv", 1, 0, 1)],
+                      [dict(remote=1, sock=0, type="M", n=1)], [("req", 0), ("req", 1), ("wait", 1), ("qfree", 0), ("wait", 0)], fix))
+    # the same socket id towards two remote nodes, receive role: the response from the second node may arrive while only the
+    # request for the first node is outstanding
+    S.append(scenario("recv-two-remotes-same-socket-id-early", 2, [], [M("recv", 1, 0, 1), M("recv", 2, 0, 1)],
+                      [dict(remote=1, sock=0, type="M", n=1), dict(remote=2, sock=0, type="M", n=1)],
+                      [("req", 0), ("wait", 0), ("req", 1), ("wait", 1)], fix))
+    S.append(scenario("recv-keep-two-remotes-same-socket-id-early", 2, [], [K("recv", 1, 0, 1, [0]), K("recv", 2, 0, 1, [1])],
+                      [dict(remote=1, sock=0, type="K", n=1), dict(remote=2, sock=0, type="K", n=1)],
                       [("req", 0), ("wait", 0), ("req", 1), ("wait", 1)], fix))
     # the stack refuses the first request (too many pairs); the application's next subroutine asks again for fewer on the
     # same socket: nothing of the refused request may be left behind
